@@ -30,6 +30,10 @@ RULE = (
     'the supplied ones (all of them / exactly the inelastic energies / random) or the pixel dimension sliced away '
     "(data['spectrum', i], which leaves every per-pixel coordinate unaligned) — for DataArray and Dataset; the "
     'alignment dimension is sampled, the aligned space is what is exhaustive. '
+    'SHAPE of the supplied coordinates is a further sampled dimension: the same configuration on a run x pixel grid with '
+    'every one of the 11 coordinates 0-d / per pixel / per run (another dim label) / run x pixel / pixel x run (transposed), '
+    '40 % of them "crossed" (incident side per run, scattered side per pixel or vice versa, single sample position); the '
+    'formula oracle compares per element with numpy broadcasting over (run, pixel, x). '
     'In addition every (origin incl. an unsupported one, target, scatter, mode) is compared for conversion_graph '
     'and every public graph factory x argument for the factory models. An extra stream outside the quantifier '
     '(some of Qx/Qy/Qz supplied; unsupported origin dspacing) is compared with the literal graph_for model only. '
@@ -102,6 +106,42 @@ def _err(e: BaseException) -> str:
 
 # ---- data --------------------------------------------------------------------------------------
 
+NRUN = 2
+SHAPE_KINDS = ['0', 'p', 'r', 'rp', 'pr']   # 0-d | per pixel | per run (another dim label) | run x pixel | pixel x run (transposed)
+DEFAULT_KIND = {'position': 'p', 'source_position': '0', 'sample_position': '0', 'incident_beam': '0', 'scattered_beam': 'p',
+                'L1': '0', 'L2': 'p', 'Ltotal': 'p', 'two_theta': 'p', 'incident_energy': '0', 'final_energy': 'p'}
+
+
+def kind_of(name, align):
+    if align[0] == 'shape' and name in ELEVEN:
+        return align[1][ELEVEN.index(name)]
+    return DEFAULT_KIND.get(name)
+
+
+def shape_values(vseed, align):
+    """values when the SHAPES of the supplied coordinates vary: every coordinate is drawn on the full run x pixel grid and
+    reduced to its shape kind"""
+    import numpy as np
+
+    v = make_values(vseed)
+    rng = np.random.default_rng([*vseed, 4242])
+    full = {
+        'position': rng.normal(size=(NRUN, NPIX, 3)) * 3.0 + np.array([0.3, -0.2, 4.0]),
+        'source_position': rng.normal(size=(NRUN, NPIX, 3)) * 2.0 + np.array([0.1, 0.4, -12.0]),
+        'sample_position': rng.normal(size=(NRUN, NPIX, 3)) * 0.7 + np.array([0.5, -0.3, 0.8]),
+        'incident_beam': rng.normal(size=(NRUN, NPIX, 3)) * 2.0 + np.array([0.2, 0.1, 9.0]),
+        'scattered_beam': rng.normal(size=(NRUN, NPIX, 3)) * 2.5,
+        'L1': rng.uniform(5.0, 15.0, size=(NRUN, NPIX)), 'L2': rng.uniform(1.0, 6.0, size=(NRUN, NPIX)),
+        'Ltotal': rng.uniform(8.0, 30.0, size=(NRUN, NPIX)), 'two_theta': rng.uniform(0.05, 3.0, size=(NRUN, NPIX)),
+        'incident_energy': rng.uniform(20.0, 100.0, size=(NRUN, NPIX)), 'final_energy': rng.uniform(15.0, 90.0, size=(NRUN, NPIX)),
+    }
+    for n, a in full.items():
+        k = kind_of(n, align)
+        v[n] = {'0': a[0, 0], 'p': a[0], 'r': a[:, 0], 'rp': a, 'pr': np.swapaxes(a, 0, 1).copy()}[k]
+    v['data'] = rng.random((NRUN, NPIX, NX))
+    return v
+
+
 def make_values(vseed):
     """independent random values for every coordinate (natural units), as numpy arrays"""
     import numpy as np
@@ -145,10 +185,18 @@ UNITS = {
 }
 
 
-def make_var(name, val, origin=None):
+KIND_DIMS = {'0': [], 'p': ['spectrum'], 'r': ['run'], 'rp': ['run', 'spectrum'], 'pr': ['spectrum', 'run']}
+
+
+def make_var(name, val, origin=None, kind=None):
     import numpy as np
     import scipp as sc
 
+    if kind is not None and name in ELEVEN:
+        dims = KIND_DIMS[kind]
+        if name in ('position', 'source_position', 'sample_position', 'incident_beam', 'scattered_beam'):
+            return sc.vectors(dims=dims, values=val, unit='m') if dims else sc.vector(value=val, unit='m')
+        return sc.array(dims=dims, values=val, unit=UNITS[name]) if dims else sc.scalar(float(val), unit=UNITS[name])
     if name in ('Qx', 'Qy', 'Qz'):
         return sc.array(dims=['spectrum', origin], values=val, unit=UNITS[name])
     if name in ('position', 'scattered_beam'):
@@ -169,9 +217,10 @@ def make_var(name, val, origin=None):
 def make_data(origin, present, vals, container, align=('all',)):
     import scipp as sc
 
-    da = sc.DataArray(sc.array(dims=['spectrum', origin], values=vals['data'], unit='counts'))
+    shaped_cfg = align[0] == 'shape'
+    da = sc.DataArray(sc.array(dims=(['run'] if shaped_cfg else []) + ['spectrum', origin], values=vals['data'], unit='counts'))
     for n in [origin, *AUX, *present]:
-        da.coords[n] = make_var(n, vals[n], origin)
+        da.coords[n] = make_var(n, vals[n], origin, kind_of(n, align) if shaped_cfg else None)
     data = sc.Dataset({'a': da, 'b': da * sc.scalar(2.0)}) if container == 'Dataset' else da
     if align[0] == 'set':      # explicitly unaligned coordinates
         for i, n in enumerate(ELEVEN):
@@ -383,25 +432,33 @@ def documented(origin, scatter, mode):
     return f
 
 
-def shaped(name, val):
-    """numpy value with broadcast-ready shape: pixel axis 0, x axis 1, vector axis last"""
+def shaped(name, val, kind=None):
+    """numpy value with broadcast-ready shape: axes (run, pixel, x) and the vector axis last"""
     import numpy as np
 
     val = np.asarray(val, dtype=float)
-    if name in ('position', 'scattered_beam'):
-        return val.reshape(-1, 1, 3)
-    if name in ('source_position', 'sample_position', 'incident_beam'):
-        return val.reshape(1, 1, 3)
     if name in ('u_matrix', 'b_matrix', 'sample_rotation'):
         return val
-    if name in ('tof', 'wavelength', 'energy', 'Q'):
-        return val.reshape(1, NX)
-    if val.ndim == 0:
-        return val.reshape(1, 1)
-    return val.reshape(-1, 1)
+    if name in ('tof', 'wavelength', 'energy', 'Q', 'dspacing'):
+        return val.reshape(1, 1, NX)
+    if name in ('Qx', 'Qy', 'Qz'):
+        return val.reshape(1, -1, NX)
+    vec = name in ('position', 'source_position', 'sample_position', 'incident_beam', 'scattered_beam')
+    tail = (3,) if vec else ()
+    if kind is None:
+        kind = '0' if val.ndim == (1 if vec else 0) else 'p'
+    if kind == '0':
+        return val.reshape(1, 1, 1, *tail)
+    if kind == 'p':
+        return val.reshape(1, -1, 1, *tail)
+    if kind == 'r':
+        return val.reshape(-1, 1, 1, *tail)
+    if kind == 'pr':
+        val = np.swapaxes(val, 0, 1)
+    return val.reshape(val.shape[0], val.shape[1], 1, *tail)
 
 
-def oracle_expect(origin, target, scatter, present, vals):
+def oracle_expect(origin, target, scatter, present, vals, align=('all',)):
     """what the property demands: 'err:runtime' or ('ok', expected numpy value)"""
     inel = [n for n in ('incident_energy', 'final_energy') if n in present]
     if target == 'energy_transfer':
@@ -429,7 +486,7 @@ def oracle_expect(origin, target, scatter, present, vals):
     def val(n):
         if n not in memo:
             if n in have:
-                memo[n] = shaped(n, vals[n])
+                memo[n] = shaped(n, vals[n], kind_of(n, align) if align[0] == 'shape' else None)
             else:
                 ins, fn = f[n]
                 memo[n] = fn(*[val(i) for i in ins])
@@ -451,18 +508,19 @@ def compare_value(target, coord, expected):
         if got.shape != exp.shape:
             return f'shape {got.shape} vs {exp.shape}'
     else:
-        # bring got to (pixel, x[, 3]) by inserting the missing axes
-        has_pix = 'spectrum' in dims
-        other = [d for d in dims if d != 'spectrum']
+        # bring got to (run, pixel, x[, 3]): order the labelled axes, insert the missing ones
+        other = [d for d in dims if d not in ('run', 'spectrum')]
         if len(other) > 1:
             return f'unexpected dims {dims}'
-        if has_pix and other and dims[0] != 'spectrum':
-            got = np.swapaxes(got, 0, 1)
-        if not has_pix:
+        order = [d for d in ['run', 'spectrum', *other] if d in dims]
+        got = np.transpose(got, [dims.index(d) for d in order] + list(range(len(dims), got.ndim)))
+        if 'run' not in dims:
             got = got[None, ...]
-        if not other:
+        if 'spectrum' not in dims:
             got = got[:, None, ...]
-        want_nd = 3 if is_vec else 2
+        if not other:
+            got = got[:, :, None, ...]
+        want_nd = 4 if is_vec else 3
         if got.ndim != want_nd or exp.ndim != want_nd:
             return f'rank {got.shape} vs {exp.shape}'
         try:
@@ -507,7 +565,7 @@ def run_config(T: Tables, cfg, model_line, seed):
 
     idx, origin, target, scatter, mask, container, extras, kind, align = cfg
     present = [n for i, n in enumerate(ELEVEN) if mask >> i & 1]
-    vals = make_values([seed, idx])
+    vals = shape_values([seed, idx], align) if align[0] == 'shape' else make_values([seed, idx])
     data = make_data(origin, [*present, *extras], vals, container, align)
     vals = sliced_values(vals, align)
     out = {'viol': [], 'hist': []}
@@ -572,9 +630,11 @@ def run_config(T: Tables, cfg, model_line, seed):
         out['kernels'] = sorted(kernels_used)
         return out
     # --- oracle: the property statement on the real outcome
-    exp, why, mode = oracle_expect(origin, target, scatter, present, vals)
+    exp, why, mode = oracle_expect(origin, target, scatter, present, vals, align)
     out['hist'].append(f'{container}:{"ok" if not isinstance(c_impl, str) else c_impl}:{why}')
-    if align[0] != 'all':
+    if align[0] == 'shape':
+        out['hist'].append(f'shapes:{"ok" if not isinstance(c_impl, str) else c_impl}:{why}')
+    elif align[0] != 'all':
         out['hist'].append(f'alignment:{align[0]}:{"ok" if not isinstance(c_impl, str) else c_impl}:{why}')
     if isinstance(exp, str):
         if c_impl != 'err:runtime':
@@ -771,7 +831,25 @@ def configs(ctx, T, targets, origins=ORIGINS):
                         if m and (not ctx.quick or ctx.rng.random() < 0.6):
                             out.append((idx, o, t, s, m, c, (), 'q', random_alignment(ctx.rng, m)))
                             idx += 1
+                        # … and with the SHAPES of the supplied coordinates varied (0-d / per pixel / per run with
+                        # another dim label / run x pixel / transposed), data on a run x pixel grid
+                        if m and (not ctx.quick or ctx.rng.random() < 0.6):
+                            out.append((idx, o, t, s, m, c, (), 'q', random_shapes(ctx.rng)))
+                            idx += 1
     return out
+
+
+def random_shapes(rng):
+    kinds = [rng.choice(SHAPE_KINDS) for _ in ELEVEN]
+    r = rng.random()
+    if r < 0.4:
+        # "crossed" beams: the incident side varies per run, the scattered side per pixel (or the other way round) with a
+        # single sample position: same number of dims, different dim labels
+        a, b = ('r', 'p') if r < 0.25 else ('p', 'r')
+        for n, k in (('source_position', a), ('incident_beam', a), ('L1', a), ('incident_energy', a), ('sample_position', '0'),
+                     ('position', b), ('scattered_beam', b), ('L2', b), ('final_energy', b)):
+            kinds[ELEVEN.index(n)] = k
+    return ('shape', tuple(kinds))
 
 
 def random_alignment(rng, m):
@@ -971,7 +1049,8 @@ def correspond(ctx):
         case = {'origin': o, 'target': t, 'scatter': s, 'present': present, 'container': c, 'vseed': [ctx.seed, idx],
                 'extras': list(ex), 'kind': kind, 'align': list(al),
                 'unaligned': ([n for i, n in enumerate(ELEVEN) if al[1] >> i & 1 and m >> i & 1] if al[0] == 'set'
-                              else 'per-pixel coordinates (sliced)' if al[0] == 'slice' else [])}
+                              else 'per-pixel coordinates (sliced)' if al[0] == 'slice' else []),
+                'shapes': ({n: KIND_DIMS[k] for n, k in zip(ELEVEN, al[1]) if n in present} if al[0] == 'shape' else None)}
         ctx.case((o, t, s, m, c, ex, al), True, sample={**case, 'impl': list(r['impl']), 'model': line[:160]})
         for h in r['hist']:
             ctx.count(h)
@@ -1012,7 +1091,8 @@ def oracle(ctx, deep):
         m = sum(1 << j for j in range(11) if rng.random() < p)
         cfgs.append((10_000_000 + i, rng.choice(ORIGINS), rng.choice(targets), rng.random() < 0.5, m,
                      rng.choice(['DataArray', 'Dataset']), (), 'q',
-                     random_alignment(rng, m) if m and rng.random() < 0.5 else ('all',)))
+                     (random_shapes(rng) if rng.random() < 0.4 else random_alignment(rng, m)) if m and rng.random() < 0.6
+                     else ('all',)))
     lines = model_lines(ctx, T, cfgs)
     results = _run(ctx, T, cfgs, lines, int(os.environ.get('VERIF_WORKERS', '4' if ctx.quick else '12')))
     for cfg, r in zip(cfgs, results):
@@ -1023,6 +1103,11 @@ def oracle(ctx, deep):
         ctx.case(('oracle', o, t, s, m, c, idx), True)
         for key, what in r['viol']:
             ctx.violation(key, what, case)
+
+
+def _align_of(a):
+    a = list(a)
+    return (a[0], tuple(a[1])) if a[0] == 'shape' else tuple(a)
 
 
 def replay(ctx, payload):
@@ -1037,7 +1122,7 @@ def replay(ctx, payload):
     m = mask_of(w['present'])
     seed, idx = w['vseed']
     cfg = (idx, w['origin'], w['target'], bool(w['scatter']), m, w['container'], tuple(w.get('extras', ())), w.get('kind', 'q'),
-           tuple(w.get('align', ('all',))))
+           _align_of(w.get('align', ('all',))))
     line = model_lines(ctx, T, [cfg])[0]
     r = run_config(T, cfg, line, seed)
     for key, what in r['viol']:
